@@ -51,8 +51,17 @@ func (m Memory) access(addr uint32) Access {
 type Program struct {
 	Code []byte   // c
 	K    []bool   // k, |k| = |c|
-	J    []uint64 // jump table entries (z-byte little-endian naturals)
+	J    []uint64 // jump table entries (z-byte little-endian naturals); empty when Z == 0
+	NJ   uint64   // |j|; with Z == 0 the table holds NJ zero-width entries, all equal to 0
 	Z    int
+}
+
+// jentry returns j_i.
+func (p *Program) jentry(i uint64) uint64 {
+	if p.Z == 0 {
+		return 0
+	}
+	return p.J[i]
 }
 
 // natural decodes a GP general natural (C.6) strictly; ok=false when malformed.
@@ -146,6 +155,10 @@ func Deblob(p []byte) (*Program, int) {
 		if p[kbytes-1]>>(nc%8) != 0 {
 			status = 2
 		}
+	}
+	prog.NJ = nj
+	if z == 0 {
+		return prog, status
 	}
 	prog.J = make([]uint64, nj)
 	for i := uint64(0); i < nj; i++ {
@@ -401,10 +414,10 @@ func (m *Machine) djump(a uint64) (Exit, uint64) {
 	if a == (1<<32)-(1<<16) {
 		return Exit{Kind: Halt}, 0
 	}
-	if a == 0 || a > uint64(len(m.P.J))*ZA || a%ZA != 0 {
+	if a == 0 || a/ZA > m.P.NJ || (a/ZA == m.P.NJ && a%ZA != 0) || a%ZA != 0 {
 		return Exit{Kind: Panic}, 0
 	}
-	t := m.P.J[a/ZA-1]
+	t := m.P.jentry(a/ZA - 1)
 	if !m.P.IsBlockStart(t) {
 		return Exit{Kind: Panic}, 0
 	}
